@@ -233,16 +233,33 @@ def format_errors(errors, source_codes, use_color=False):
     return "\n".join(result)
 
 
-def make_error_from_parse_error(file_name, parse_error):
+def make_error_from_parse_error(file_name, parse_error, end_of_input_location=None):
+    """Converts an lr1.ParseError into an error message.
+
+    Arguments:
+        file_name: The name of the file that was parsed.
+        parse_error: The lr1.ParseError.
+        end_of_input_location: The location to report if the parser ran out of
+            input; the end-of-input marker itself has no text or location.
+
+    Returns:
+        A list of a single error message.
+    """
+    token = parse_error.token
+    if hasattr(token, "source_location"):
+        location = token.source_location
+        found = "{!r} ({})".format(token.text, token.symbol)
+    else:
+        location = end_of_input_location
+        found = "end of input"
     return [
         error(
             file_name,
-            parse_error.token.source_location,
+            location,
             "{code}\n"
-            "Found {text!r} ({symbol}), expected {expected}.".format(
+            "Found {found}, expected {expected}.".format(
                 code=parse_error.code or "Syntax error",
-                text=parse_error.token.text,
-                symbol=parse_error.token.symbol,
+                found=found,
                 expected=", ".join(sorted(parse_error.expected_tokens)),
             ),
         )
